@@ -314,9 +314,6 @@ func c9inputUnits(tier string) []mc.Unit {
 	// full libraries: 3 alternatives in every slot (up to 729 plasmids and several thousand goroutines alive)
 	for _, J := range []int{4, 5, 6} {
 		J := J
-		if J == 6 && tier != "thorough" {
-			continue // 729 plasmids: about three minutes
-		}
 		us = append(us, mc.Unit{Name: fmt.Sprintf("inputs/library=%dx3", J), Serial: true, Weight: 300 * (J - 3), Run: func(r *mc.Recorder) {
 			d := make([]int, J)
 			for i := range d {
@@ -341,7 +338,7 @@ func c9inputUnits(tier string) []mc.Unit {
 					}
 				}
 				for _, rr := range []bool{false, true} {
-					if rr && J > tier2(tier, 4, 5) {
+					if rr && J > 6 {
 						continue
 					}
 					once(func(c *mc.Ctx) {
